@@ -76,6 +76,22 @@ struct JSON {
       private:
         using JSONotation = JSONUtils::JSONotation_T<Char_T>;
 
+        // UnEscape() stops at the closing quote or where the content ends: the string is complete only when the last unit it
+        // consumed is that quote, and a quote after an odd number of backslashes is an escaped one.
+        static bool isClosed(const Char_T *str, SizeT len) noexcept {
+            if ((len == 0) || (str[len - SizeT{1}] != JSONotation::QuoteChar)) {
+                return false;
+            }
+
+            SizeT index = SizeT(len - SizeT{1});
+
+            while ((index != 0) && (str[index - SizeT{1}] == JSONotation::BSlashChar)) {
+                --index;
+            }
+
+            return (((len - index) & SizeT{1}) != 0);
+        }
+
         static ValueT parseObject(Stream_T &stream, const Char_T *content, SizeT &offset, const SizeT length) {
             using ObjectT = typename ValueT::ObjectT;
 
@@ -91,7 +107,7 @@ struct JSON {
                     const Char_T *str = (content + offset);
                     SizeT         len = JSONUtils::UnEscape(str, (length - offset), stream);
 
-                    if (len != 0) {
+                    if (isClosed(str, len)) {
                         offset += len;
                         --len;
 
@@ -200,7 +216,7 @@ struct JSON {
                     const Char_T *str = (content + offset);
                     SizeT         len = JSONUtils::UnEscape(str, (length - offset), stream);
 
-                    if (len != 0) {
+                    if (isClosed(str, len)) {
                         offset += len;
                         --len;
 
